@@ -255,3 +255,103 @@ theorem pending_sub (cfg : Cfg) (all : List MFile) (revs : List Revision) (l : L
 
 
 end Atlas.Pending
+
+/-! ### the pending files are a sub-sequence of the directory -/
+
+namespace Atlas.Pending
+
+
+theorem skip_sublist (all : List MFile) : (skipCheckpoints all).Sublist all := List.filter_sublist
+
+theorem outOfOrder_sublist (cfg : Cfg) (m : List MFile) (revs : List Revision) (r0 : Revision) (idx : Nat) (s : List MFile)
+    (h : outOfOrder cfg m revs r0 idx = some s) : s.Sublist (m.take idx) := by
+  unfold outOfOrder at h
+  split at h
+  · split at h
+    · cases h
+      exact List.filter_sublist.trans (List.drop_sublist _ _)
+    · cases h
+  · cases h
+
+theorem normal_sublist (cfg : Cfg) (m : List MFile) (revs : List Revision) (r0 last : Revision) (l : List MFile)
+    (h : normal cfg m revs r0 last = .ok l) : l.Sublist m := by
+  unfold normal at h
+  simp only at h
+  split at h
+  · split at h
+    · cases h
+    · cases h; exact List.Sublist.refl _
+  · rename_i idx0 _
+    split at h
+    · have := finish_sub h; subst this; exact List.drop_sublist _ _
+    · have := finish_sub h; subst this; exact List.drop_sublist _ _
+    · rename_i skipped _ hs
+      split at h
+      · have := finish_sub h; subst this
+        have h1 := outOfOrder_sublist cfg m revs r0 _ skipped hs
+        have := List.Sublist.append h1 (List.Sublist.refl (m.drop (if last.partially = true then idx0 else idx0 + 1)))
+        rwa [List.take_append_drop] at this
+      · cases h
+      · have := finish_sub h; subst this; exact List.drop_sublist _ _
+
+theorem firstRun_sublist (cfg : Cfg) (all : List MFile) (l : List MFile)
+    (h : (firstRun cfg all (skipCheckpoints all)).out = .ok l) : l.Sublist all := by
+  unfold firstRun at h
+  split at h
+  · cases h
+  · split at h
+    · split at h
+      · cases h
+      · simp only at h
+        split at h
+        · cases h
+        · cases h
+          exact (List.drop_sublist _ _).trans (skip_sublist all)
+    · simp only at h
+      split at h
+      · cases h
+      · cases h
+        unfold filesFromLastCheckpoint
+        split
+        · exact List.Sublist.refl _
+        · exact List.drop_sublist _ _
+
+/-- **the pending files are a sub-sequence of the directory**: in directory order, each file at most once. -/
+theorem pending_sublist (cfg : Cfg) (all : List MFile) (revs : List Revision) (l : List MFile)
+    (h : (pending cfg all revs).out = .ok l) : l.Sublist all := by
+  unfold pending at h
+  simp only at h
+  split at h
+  · exact firstRun_sublist cfg all l h
+  · exact firstRun_sublist cfg all l h
+  · rename_i last r0 _ _
+    split at h
+    · split at h
+      · rename_i hfound
+        cases h
+        simp only [bsearch, Bool.and_eq_true, decide_eq_true_eq] at hfound
+        have hlt := hfound.1.1
+        have hck := hfound.2
+        rw [getElem!_pos all _ hlt] at hck ⊢
+        have hd : all.drop (bsearchLoop (fun (f : MFile) => f.version < last.version) all (all.length + 1) 0 all.length) =
+            all[bsearchLoop (fun (f : MFile) => f.version < last.version) all (all.length + 1) 0 all.length] ::
+              all.drop (bsearchLoop (fun (f : MFile) => f.version < last.version) all (all.length + 1) 0 all.length + 1) :=
+          List.drop_eq_getElem_cons hlt
+        have : (all[bsearchLoop (fun (f : MFile) => f.version < last.version) all (all.length + 1) 0 all.length] ::
+            skipCheckpoints (all.drop (bsearchLoop (fun (f : MFile) => f.version < last.version) all (all.length + 1) 0 all.length))).Sublist
+            (all.drop (bsearchLoop (fun (f : MFile) => f.version < last.version) all (all.length + 1) 0 all.length)) := by
+          rw [hd]
+          unfold skipCheckpoints
+          rw [List.filter_cons]
+          simp only [hck, Bool.not_true, Bool.false_eq_true, ↓reduceIte]
+          exact List.Sublist.cons_cons _ List.filter_sublist
+        exact this.trans (List.drop_sublist _ _)
+      · split at h
+        · cases h
+        · exact (normal_sublist cfg _ revs r0 last l h).trans (skip_sublist all)
+    · split at h
+      · exact (normal_sublist cfg _ revs r0 last l h).trans (skip_sublist all)
+      · cases h
+
+
+end Atlas.Pending
